@@ -156,6 +156,17 @@ func c07Eval(v []int) (string, string, bool) {
 			w.udp[src].Send("127.0.0.1:5060", m.Render())
 			w.SendUDP("127.0.0.8:5070", "127.0.0.1:5060", other.Render())
 		} else {
+			if s.Val(v, "burst") == "same-transaction-earlier-from-another-port" {
+				// the very same request (same top Via, same branch) came in a moment ago from another source port of
+				// the sender (a NAT binding that was re-created between two retransmissions): every copy is stamped
+				// with the source of ITS datagram
+				op := srcPort + 7
+				if op > 65535 {
+					op = srcPort - 7
+				}
+				w.SendUDP(fmt.Sprintf("%s:%d", srcIP, op), "127.0.0.1:5060", m.Render())
+				w.Observe()
+			}
 			w.SendUDP(fmt.Sprintf("%s:%d", srcIP, srcPort), "127.0.0.1:5060", m.Render())
 		}
 	case "tcp-accepted":
@@ -355,7 +366,7 @@ func init() {
 		{Name: "entries", Vals: []string{"one", "hop-behind-opposite-entry"}},
 		{Name: "manypars", Vals: []string{"no", "20-before"}},
 		{Name: "start", Vals: []string{"main", "startProxy"}, Quick: 1},
-		{Name: "burst", Vals: []string{"alone", "followed-by-other-source", "other-connection-accepted-meanwhile"}},
+		{Name: "burst", Vals: []string{"alone", "followed-by-other-source", "other-connection-accepted-meanwhile", "same-transaction-earlier-from-another-port"}},
 		{Name: "parorder", Vals: []string{"branch-first", "branch-last", "reversed"}},
 	}, Eval: c07Eval, Sample: 300}
 	c07Spec.Valid = func(v []int) bool {
@@ -364,6 +375,9 @@ func init() {
 			return false
 		}
 		if s.Val(v, "burst") == "followed-by-other-source" && s.Val(v, "arrival") != "udp" {
+			return false
+		}
+		if s.Val(v, "burst") == "same-transaction-earlier-from-another-port" && s.Val(v, "arrival") != "udp" {
 			return false
 		}
 		if s.Val(v, "burst") == "other-connection-accepted-meanwhile" && s.Val(v, "arrival") != "tcp-accepted" {
